@@ -10,16 +10,16 @@ import (
 
 // RunStats is the per-run summary written by the worker (feeds the evidence file).
 type RunStats struct {
-	Ops       map[string]int `json:"ops"`
-	Statuses  map[string]int `json:"statuses"`
-	Probes    map[string]int `json:"probes"`
-	Faults    map[string]int `json:"faults"`
-	SimNs     int64          `json:"sim_ns"`
-	Msgs      int            `json:"msgs"`
-	Writes    int            `json:"writes"`
-	ShapeHash string         `json:"shape_hash"`
-	NonTrivial bool          `json:"non_trivial"`
-	Interleave string        `json:"interleave,omitempty"`
+	Ops        map[string]int `json:"ops"`
+	Statuses   map[string]int `json:"statuses"`
+	Probes     map[string]int `json:"probes"`
+	Faults     map[string]int `json:"faults"`
+	SimNs      int64          `json:"sim_ns"`
+	Msgs       int            `json:"msgs"`
+	Writes     int            `json:"writes"`
+	ShapeHash  string         `json:"shape_hash"`
+	NonTrivial bool           `json:"non_trivial"`
+	Interleave string         `json:"interleave,omitempty"`
 }
 
 func Stats(h *History) RunStats {
@@ -29,6 +29,24 @@ func Stats(h *History) RunStats {
 	for _, o := range all {
 		s.Ops[o.Op.Kind]++
 		if o.Op.Kind == "sleep" || o.Op.Kind == "dbset" {
+			continue
+		}
+		if o.Diam != nil {
+			d := o.Op.D
+			k := fmt.Sprintf("%s:a%d:t%d:s%d:ans%v:fui%v:g%v", o.Op.Kind, d.Action, d.ReqType, d.RateSubType, o.Diam.Answered, o.Diam.F.FUI, o.Diam.F.Granted > 0 || o.Diam.F.Allowed > 0 || o.Diam.F.Price > 0)
+			shape = append(shape, k)
+			if o.Diam.Answered {
+				s.Statuses["answered"]++
+				s.NonTrivial = true
+			} else {
+				s.Statuses["no-answer"]++
+			}
+			if o.Diam.PreBal != o.Diam.PostBal {
+				s.Probes["balance_changed"]++
+			}
+			if o.Diam.PostBal < 0 {
+				s.Probes["negative_balance"]++
+			}
 			continue
 		}
 		if !o.Done {
